@@ -44,12 +44,15 @@ EXTENDS Integers, Sequences, FiniteSets, TLC, Json, FiniteSetsExt, SequencesExt,
 CONSTANTS RectShapes,  \* set of <<h, w>>: rectangular meshes (the module defines their 4-connectivity itself)
           Graphs,      \* sequence of neighbour tables (a family of Delaunay neighbour graphs)
           C2Q,         \* set of coefficient^2 values in the unit u = 1/4  (c in {1/2,1,2,3} -> {1,4,16,36})
-          ZerothPairs, \* set of <<c2q, czq>>: neighbour / zeroth coefficient^2 of the constant-zeroth instances
-          WeightPairs, \* set of <<a, b>>: inner / outer coefficient of the exact adaptive instances (integers)
+          ZerothSet,   \* constant-zeroth instances take EVERY pair <<c2q, czq>> of this set (equal values included)
+          WeightSet,   \* exact adaptive instances take EVERY pair <<inner, outer>> of this set of integers (equal values included)
           Patterns,    \* set of pattern ids selecting the bright pixels of the exact adaptive instances
           Splits,      \* sequence of split-cross instances [n, T, om, rows] with integer interpolation weights (unit 1/T)
           ObjKinds,    \* set of <<p, reg>>: parameter count and has-regularization flag of a linear object
           MaxObjs,     \* object lists of length 1 .. MaxObjs
+          Stages,      \* inversion-level histories after which the matrices of an inversion are read (see HistRead)
+          StageMaxObjs, \* every history of Stages is enumerated for the object lists of length 1 .. StageMaxObjs ...
+          StageKinds,  \* ... over these object kinds (a subset of ObjKinds)
           MaxTernary   \* forms are evaluated on all x in {-1,0,1}^n for n <= MaxTernary
 
 SumOver(S, f(_)) == FoldSet(LAMBDA x, acc : acc + f(x), 0, S)
@@ -253,20 +256,23 @@ Meshes == { << "rect", s[1], s[2] >> : s \in RectShapes } \cup { << "graph", g, 
 TableOf(m) == IF m[1] = "rect" THEN Rect4(m[2], m[3]) ELSE Graphs[m[2]]
 
 Blank == [kind |-> "nbr", mesh |-> << "rect", 0, 0 >>, scheme |-> "", c2q |-> 0, czq |-> 0, wa |-> 0, wb |-> 0, pat |-> 0,
-          split |-> 0, objs |-> << >>]
+          split |-> 0, objs |-> << >>, stage |-> "fresh"]
 NbrInsts ==
   { [Blank EXCEPT !.mesh = m, !.scheme = "constant", !.c2q = c] : m \in Meshes, c \in C2Q }
-  \cup { [Blank EXCEPT !.mesh = m, !.scheme = "constant_zeroth", !.c2q = cz[1], !.czq = cz[2]] : m \in Meshes, cz \in ZerothPairs }
+  \cup { [Blank EXCEPT !.mesh = m, !.scheme = "constant_zeroth", !.c2q = cz[1], !.czq = cz[2]] : m \in Meshes, cz \in ZerothSet \X ZerothSet }
   \cup { [Blank EXCEPT !.mesh = m, !.scheme = "zeroth", !.c2q = c] : m \in Meshes, c \in C2Q }
   \cup { [Blank EXCEPT !.mesh = m, !.scheme = "adaptive", !.wa = ab[1], !.wb = ab[2], !.pat = t] :
-            m \in Meshes, ab \in WeightPairs, t \in Patterns }
-  \cup { [Blank EXCEPT !.mesh = m, !.scheme = "brightness_zeroth", !.wa = ab[1], !.pat = t] :
-            m \in Meshes, ab \in WeightPairs, t \in Patterns }
+            m \in Meshes, ab \in WeightSet \X WeightSet, t \in Patterns }
+  \cup { [Blank EXCEPT !.mesh = m, !.scheme = "brightness_zeroth", !.wa = a, !.pat = t] :
+            m \in Meshes, a \in WeightSet, t \in Patterns }
 SplitInsts == { [Blank EXCEPT !.kind = "split", !.scheme = "split", !.split = k] : k \in DOMAIN Splits }
-RECURSIVE ObjLists(_)
-ObjLists(len) == IF len = 0 THEN { << >> } ELSE { Append(l, o) : l \in ObjLists(len - 1), o \in ObjKinds }
+RECURSIVE ObjListsOver(_, _)
+ObjListsOver(K, len) == IF len = 0 THEN { << >> } ELSE { Append(l, o) : l \in ObjListsOver(K, len - 1), o \in K }
+ObjLists(len) == ObjListsOver(ObjKinds, len)
 BlockInsts == { [Blank EXCEPT !.kind = "blocks", !.scheme = "blocks", !.objs = l] :
                   l \in UNION { ObjLists(len) : len \in 1 .. MaxObjs } }
+              \cup { [Blank EXCEPT !.kind = "blocks", !.scheme = "blocks", !.objs = l, !.stage = st] :
+                       l \in UNION { ObjListsOver(StageKinds, len) : len \in 1 .. StageMaxObjs }, st \in Stages \ {"fresh"} }
 
 NOf(I) == Len(TableOf(I.mesh))
 \* reported weights of the exact instances: adaptive w = a^2 on bright pixels (signal 1), b^2 elsewhere (signal 0);
@@ -285,6 +291,31 @@ PsOf(l) == [k \in DOMAIN l |-> l[k][1]]
 RegsOf(l) == [k \in DOMAIN l |-> l[k][2]]
 OwnsOf(l) == [k \in DOMAIN l |-> OwnTag(k, l[k])]
 
+\* ---- inversion-level histories ------------------------------------------------------------------------------
+\* What an inversion reports as its regularization matrix does not depend on what was done with the inversion before:
+\*   "fresh"                    inversion built, matrix read
+\*   "after-solve"              curvature_reg_matrix / reconstruction / log-determinants evaluated first
+\*   "preloaded"                the matrix is supplied through Preloads (taken from a first, source inversion), read before the solve
+\*   "preloaded-after-solve"    ... read after the solve
+\*   "second-inversion"         a second inversion sharing the same Preloads object, read after the first one solved
+\*   "preload-source"           the source inversion, read after the inversion it preloaded has solved
+\* Second formulation, structured like the code: matrices live in BUFFERS.  regularization_matrix hands out the preloaded buffer
+\* "pre" (which is also the source inversion's cache) or the inversion's own cache "h1"; curvature_reg_matrix of an inversion with
+\* ONE linear object accumulates F + H in place in the curvature buffer "f1" (then evicted from the cache) and otherwise builds a new
+\* array.  HistRead is the content of the buffer the judged read is served from; HistoryIndependent says it is the block matrix.
+Solved(st) == st \in {"after-solve", "preloaded-after-solve", "second-inversion", "preload-source"}
+Preloaded(st) == st \in {"preloaded", "preloaded-after-solve", "second-inversion", "preload-source"}
+HistRead(l, st) ==
+  LET ps == PsOf(l)
+      H == BlockDiag(OwnsOf(l), ps)
+      F == Mat(Total(ps), LAMBDA a, b : 1 + a + b)            \* some curvature matrix
+      single == Len(l) = 1 /\ l[1][2]
+      mem0 == [pre |-> H, h1 |-> H, f1 |-> F]
+      mem1 == IF Solved(st) /\ single
+              THEN [mem0 EXCEPT !.f1 = Mat(Total(ps), LAMBDA a, b : F[a][b] + mem0[IF Preloaded(st) THEN "pre" ELSE "h1"][a][b])]
+              ELSE mem0
+  IN mem1[IF Preloaded(st) THEN "pre" ELSE "h1"]
+
 Init == /\ inst \in NbrInsts \cup SplitInsts \cup BlockInsts
         /\ phase = "given"
         /\ out = << >>
@@ -298,11 +329,11 @@ Assemble ==
               [] inst.kind = "split" ->
                    LET sp == Splits[inst.split] IN [q |-> AsmSplit(sp.n, sp.T, sp.om, sp.rows), r |-> Ident(sp.n)]
               [] OTHER ->
-                   LET full == BlockDiag(OwnsOf(inst.objs), PsOf(inst.objs))
+                   LET full == HistRead(inst.objs, inst.stage)
                    IN [q |-> full, r |-> ReducedAsm(full, PsOf(inst.objs), RegsOf(inst.objs))]
   /\ PrintT(ToJson([k |-> "inst", kind |-> inst.kind, mesh |-> inst.mesh, scheme |-> inst.scheme, c2q |-> inst.c2q,
                     czq |-> inst.czq, wa |-> inst.wa, wb |-> inst.wb, pat |-> inst.pat, split |-> inst.split,
-                    objs |-> inst.objs,
+                    objs |-> inst.objs, stage |-> inst.stage,
                     bright |-> IF inst.kind = "nbr" THEN SetToSortSeq(Bright(inst.pat, NOf(inst)), <) ELSE << >>]))
   /\ UNCHANGED inst
 
@@ -389,6 +420,8 @@ OffBlocksAreZero ==
 UnregularisedBlockIsZero ==
   IsBlocks => LET l == inst.objs ps == PsOf(l) offs == Offs(ps)
               IN \A k \in DOMAIN l : ~ l[k][2] => \A a, b \in 1 .. ps[k] : out.q[offs[k] + a][offs[k] + b] = 0
+HistoryIndependent ==
+  IsBlocks => out.q = BlockDiag(OwnsOf(inst.objs), PsOf(inst.objs))
 ReducedIsRegularisedBlocks ==
   IsBlocks => out.r = ReducedDef(OwnsOf(inst.objs), PsOf(inst.objs), RegsOf(inst.objs))
 =============================================================================
